@@ -659,6 +659,12 @@ func (c *copier) copyDirectory(
 
 	fis, err := os.ReadDir(src)
 	if err != nil {
+		if !include && errors.Is(err, os.ErrPermission) {
+			// a directory that is not selected itself is only read to
+			// look for selected entries below it; like the filtered
+			// walk, do not fail when the caller may not list it
+			return created, nil
+		}
 		return false, errors.Wrapf(err, "failed to read %s", src)
 	}
 
